@@ -223,7 +223,10 @@ class MTLProgram:
 
 
 def build_mtl(spec: dict) -> MTLProgram:
-    """spec: {seed, n_shared, n_features, n_tasks, dtype, overlap: bool, empty_task: bool}"""
+    """spec: {seed, n_shared, n_features, n_tasks, dtype, overlap: bool, empty_task: bool,
+    feat_shapes: 'any' (features of any shape of SHAPES), trunk: 'dense' | 'sparse' (sparse: every feature depends
+    on a random subset of the shared parameters, so some Jacobian blocks are zero / some shared parameters may be
+    unreachable)}.  Heads share no graph node besides the features; features are the only path shared -> losses."""
     rng = random.Random(spec["seed"])
     dtype = torch.float64 if spec.get("dtype", "float64") == "float64" else torch.float32
     n_shared = spec.get("n_shared", 2)
@@ -241,10 +244,18 @@ def build_mtl(spec: dict) -> MTLProgram:
     # trunk: mix all shared params into a scalar "core" plus per-feature shapes
     core = sum((torch.sin(s).sum() * (i + 1.0)) for i, s in enumerate(shared)) + const.sum()
     features = []
+    feat_shapes = SHAPES if spec.get("feat_shapes") == "any" else [(), (2,), (3,), (2, 2), (1, 3)]
+    sparse = spec.get("trunk", "dense") == "sparse"  # each feature depends on a random subset of the shared params
     for k in range(n_feat):
-        sh = rng.choice([(), (2,), (3,), (2, 2), (1, 3)])
-        s = rng.choice(shared)
-        base = torch.tanh(core * (0.3 + 0.2 * k)) + s.reshape(-1)[0] * (k + 1.0)
+        sh = rng.choice(feat_shapes)
+        if sparse:
+            sub = rng.sample(range(n_shared), rng.randint(1, n_shared))
+            base = sum(torch.tanh(shared[j] * (0.5 + 0.25 * k)).sum() * (j + 1.0) for j in sub)
+            base = base * base.detach().cos() + (shared[sub[0]] * shared[sub[0]]).sum() * 0.25
+            desc.append(f"F{k}<-{sorted(sub)}")
+        else:
+            s = rng.choice(shared)
+            base = torch.tanh(core * (0.3 + 0.2 * k)) + s.reshape(-1)[0] * (k + 1.0)
         f = base * (_rand_tensor(rng, sh, dtype) + 2.0) if sh != () else base * 1.5
         features.append(f)
         desc.append(f"F{k}{tuple(sh)}")
